@@ -964,10 +964,53 @@ func (g *G) Scenario(k int) []*S {
 	case 14: // repetition and the same
 		return []*S{Asg("a", g.ints(1 + g.r.Intn(3))), Asg("x", Bin(Nm("a"), "*", I(1+g.r.Intn(3)))),
 			Asg("y", Bin(Nm("x"), "+", g.L(I(55)))), Asg("z", Bin(Nm("x"), "+", g.L(I(66)))), IdxAsg("x", I(0), I(99))}
+	case 15: // integers beyond 2^53 through // and % (a float64 cannot hold them exactly); results stay within 64 bits.
+		// The parser rejects int literals of 19 characters and more, so the largest values are built by a product.
+		big := []int{1 << 53, 1<<53 + 1, 1<<53 + 3, 1<<54 + 2, 1<<56 + 1, 3<<52 + 1, 6004799503160661, 99999999999999999, 72057594037927935}
+		a := lib.Pick(g.r, big) - g.r.Intn(3)
+		if g.r.Chance(40) {
+			a = -a
+		}
+		var av *E = I(a)
+		if g.r.Chance(35) {
+			k := 2 + g.r.Intn(60) // |a| * k < 2^63 for every a above
+			av = Bin(I(a), "*", I(k))
+		}
+		b := g.nonZero()
+		switch g.r.Intn(4) {
+		case 0:
+			b = 1
+		case 1:
+			b = lib.Pick(g.r, big)
+			if g.r.Chance(30) {
+				b = -b
+			}
+		}
+		return []*S{Asg("a", av), Asg("b", I(b)), Asg("q", Bin(Nm("a"), "//", Nm("b"))), Asg("m", Bin(Nm("a"), "%", Nm("b"))),
+			Asg("q2", Bin(I(a), "//", I(b))), Asg("ok", &E{K: "ch", A: []*E{Nm("q")}, Ops: []ChainOp{{Op: "*", E: Nm("b")}, {Op: "+", E: Nm("m")}, {Op: "==", E: Nm("a")}}})}
+	case 16: // an operand of `or` / `and` fills the dict whose truthiness decides the operator
+		k := I(1 + g.r.Intn(9))
+		rv := lib.Pick(g.r, []*E{Tr(), I(3), Fa(), I(0)})
+		fill := Def("f", nil, nil, IdxAsg("d", Str("k"), I(1)), Ret(rv))
+		var x *E
+		switch g.r.Intn(5) {
+		case 0: // d or f() and k: `or` is followed by a tighter operator, so d is asked twice
+			x = &E{K: "ch", A: []*E{Nm("d")}, Ops: []ChainOp{{Op: "or", E: Call("f")}, {Op: "and", E: k}}}
+		case 1:
+			// (compared with a value of its own type: True == 1 is false in asp, true in Python - another story)
+			x = &E{K: "ch", A: []*E{Nm("d")}, Ops: []ChainOp{{Op: "or", E: Call("f")}, {Op: "==", E: rv}}}
+		case 2:
+			x = &E{K: "ch", A: []*E{Nm("d")}, Ops: []ChainOp{{Op: "or", U: "not", E: Call("f")}}}
+		case 3: // single operator: asked once
+			x = Bin(Nm("d"), "or", Call("f"))
+		default: // explicit parentheses: asked once
+			x = Bin(Nm("d"), "or", Par(&E{K: "ch", A: []*E{Call("f")}, Ops: []ChainOp{{Op: "and", E: k}}}))
+		}
+		return []*S{Asg("d", Dict()), fill, Asg("x", x), Asg("n", Call("len", Nm("d")))}
 	case 12: // mutation while a slice of the same list is being iterated / sorted copies in loops
 		return []*S{Asg("a", g.ints(4)), Asg("out", g.L()), For([]string{"x"}, Sl(Nm("a"), I(1), nil), IdxAsg("a", I(2), I(0)), Aug("out", g.L(Nm("x"))))}
 	}
 	return g.Program()
 }
 
-const nScenarios = 15
+const nScenarios = 17
